@@ -34,7 +34,8 @@ func c07XNodes(items []int) (nodes []*Node, slots []string) {
 		case "PA":
 			nodes = append(nodes, nText("a="), nPrint(eVar("a")), nText(";"))
 		case "PO":
-			nodes = append(nodes, nText("o="), nPrint(eVar("o")), nText(";"))
+			// o comes from the data; e is data too, but shadowed by the loop variable when the use sits in a loop (place 2)
+			nodes = append(nodes, nText("o="), nPrint(eVar("o")), nText(";e="), nPrint(eVar("e")), nText(";"))
 		case "IFA":
 			nodes = append(nodes, &Node{K: "if", E: eVar("a"), Body: []*Node{nText("Y")}, HasElse: true, Else: []*Node{nText("N")}})
 		case "SD":
@@ -100,6 +101,9 @@ func c07UseNode(u c07Use, idx int, xSlots []string, loopVar string) *Node {
 		if tag == "" {
 			tag = "d"
 		}
+		if loopVar != "" { // a slot body written inside a loop shows that pass's variable (loop.* is left out: a placeholder may sit in a loop of the component)
+			return []*Node{nText(fmt.Sprintf("[S%d%s ", idx, tag)), nPrint(eVar("v")), nText(":"), nPrint(eVar(loopVar)), nText("]")}
+		}
 		return []*Node{nText(fmt.Sprintf("[S%d%s ", idx, tag)), nPrint(eVar("v")), nText("]")}
 	}
 	switch u.Slots {
@@ -145,7 +149,7 @@ func c07Build(cs c07Case) c07Built {
 		case 1:
 			page.Nodes = append(page.Nodes, &Node{K: "if", E: eVar("v"), Body: []*Node{nText("{if" + tag), c07UseNode(u, i, xSlots, ""), nText("}")}})
 		case 2:
-			lv := "e" + tag
+			lv := "e"
 			page.Nodes = append(page.Nodes, &Node{K: "each", Name: lv, E: &Expr{Op: "arr", Kids: []*Expr{eLit(vInt(int64(10 * (i + 1)))), eLit(vInt(int64(10*(i+1) + 1)))}},
 				Body: []*Node{nText("{e" + tag), c07UseNode(u, i, xSlots, lv), nText("}")}})
 		case 3:
@@ -166,7 +170,7 @@ func c07Build(cs c07Case) c07Built {
 		// page text outside inserts does not appear: the model drops it because only the layout is rendered
 	}
 	b.env = &tplEnv{files: files}
-	b.data = map[string]Val{"o": vStr("O"), "v": vStr("V")}
+	b.data = map[string]Val{"o": vStr("O"), "v": vStr("V"), "e": vInt(5)}
 	if cs.Data == 1 {
 		b.data["o"] = vInt(7)
 	}
@@ -414,7 +418,7 @@ func init() {
 	p := &Property{
 		ID:    "C07",
 		Level: "exploration",
-		Rule: "bounded-exhaustive template trees on disk: every component file that is a sequence of <=k items from {text, {{ a }}, {{ o }} (outer variable), @if(a)…@else…@end, @slot, @slot(\"n\"), @slot(\"m\"), and the same placeholders nested inside @if / @each / @else blocks of the component} with distinct slots; pages with one, two and three uses — the same component used repeatedly with different argument variants (none, literal, data variable, loop variable / concatenation, shadowing an outer variable with the same and with a different type, falsy) and slot variants (none, all declared, first only, last only, bodies unique per use), a second component addressed through ~, placed at top level, inside @if, inside @each, inside an insert of a layout page and inside another component's slot body; plus undeclared / duplicate slots and missing component files. " +
+		Rule: "bounded-exhaustive template trees on disk: every component file that is a sequence of <=k items from {text, {{ a }}, {{ o }} (outer variable), @if(a)…@else…@end, @slot, @slot(\"n\"), @slot(\"m\"), and the same placeholders nested inside @if / @each / @else blocks of the component} with distinct slots; pages with one, two and three uses — the same component used repeatedly with different argument variants (none, literal, data variable, loop variable / concatenation, shadowing an outer variable with the same and with a different type, falsy) and slot variants (none, all declared, first only, last only, bodies unique per use), a second component addressed through ~, placed at top level, inside @if, inside @each, inside an insert of a layout page and inside another component's slot body; plus undeclared / duplicate slots and missing component files.  [as built: the component also prints a surrounding variable that a loop at the place of use shadows; slot bodies written in a loop print the loop variable]" +
 			"Reference: RefTW; every use carries unique markers, so cross-talk between uses is visible. Non-trivial: the page uses the same component at least twice, or is a fault case",
 		Bounds: func(tier string) map[string]any {
 			if tier == "thorough" {
